@@ -121,17 +121,26 @@ Definition kind_eqb (a b : kind) : bool :=
   | KSamples, KSamples | KSeries, KSeries | KMetrics, KMetrics | KSpans, KSpans | KTags, KTags | KProfile, KProfile => true
   | _, _ => false
   end.
-(* InsertServiceV2RoundRobin.Request: some worker of the group (the choice among INSERTING / IDLE workers and the
-   random index are left open: any worker of the group may be taken) *)
+(* InsertServiceV2RoundRobin.Request: GetState of a worker is INSERTING from just before client.Do is called until
+   fetchLoopIteration returns, IDLE otherwise.  The request goes to a worker of the group that is INSERTING if there is
+   one, otherwise to any worker of the group; which one (the random index) is left open: it is the `s` of the action. *)
+Definition inserting (sv : svc) : bool :=
+  match inflight sv with Some po => p_sent po | None => false end.
+Definition rr_pick_ok (g : gstate) (s : nat) : bool :=
+  match nth_error (svcs g) s with
+  | Some sv => inserting sv || negb (existsb (fun sv' => Nat.eqb (grp sv') (grp sv) && inserting sv') (svcs g))
+  | None => false
+  end.
 Definition may_take (g : gstate) (s : nat) (sp : subpush) : bool :=
   match nth_error (svcs g) s with
-  | Some sv => Nat.eqb (grp sv) (sp_svc sp) && kind_eqb (kd sv) (sp_kind sp)
+  | Some sv => Nat.eqb (grp sv) (sp_svc sp) && kind_eqb (kd sv) (sp_kind sp) && rr_pick_ok g s
   | None => false
   end.
 
 Inductive gact :=
  | GSvc (s : nat) (a : sact)             (* a must not be SRequest: requests come from GEnvReq / GSubReq *)
- | GEnvReq (s : nat) (k : kind) (n : N) (r : req) (sz : Z)   (* a direct svc.Request on worker s, of kind k (promise PEnv n) *)
+ | GEnvReq (s : nat) (k : kind) (n : N) (r : req) (sz : Z)   (* svc.Request (promise PEnv n) on the service of kind k to which worker s
+                                                                belongs; the round robin picked s *)
  | GNewHandler (items : list item)       (* an HTTP push arrives; its parser will emit these items *)
  | GItem (h : nat)                       (* doParse receives the next item *)
  | GSubReq (h i s : nat)                 (* the doPush goroutine of sub-push i starts its next attempt; the round robin picks worker s *)
@@ -145,7 +154,7 @@ Definition gstep (g : gstate) (a : gact) : option (gstate * list event) :=
   | GSvc s a => if is_request a then None else svc_act g s a
   | GEnvReq s k n r sz =>
       match nth_error (svcs g) s with
-      | Some sv => if kind_eqb (kd sv) k then svc_act g s (SRequest (PEnv n) r sz) else None
+      | Some sv => if kind_eqb (kd sv) k && rr_pick_ok g s then svc_act g s (SRequest (PEnv n) r sz) else None
       | None => None
       end
   | GNewHandler items =>
